@@ -131,21 +131,21 @@ Definition from_base58_conf (s : bytes) : res (byte * byte * bytes * bytes) :=
 Definition to_base58_conf (cv v : byte) (key d : bytes) : bytes := b58enc ([v] ++ key ++ d) cv.
 
 (* ---------- bech32 ---------- *)
-(* FromBech32: (prefix as spelled in the string, version, program).
-   bech32.Decode is used, so the constant that matched is ignored. *)
+(* FromBech32: (prefix = the lower-case hrp returned by bech32.DecodeGeneric, version, program).
+   Version 0 must carry the bech32 constant, every later version bech32m (fix e7c9f3c). *)
 Definition from_bech32 (s : bytes) : res (bytes * byte * bytes) :=
   match last_index sep s with
   | None => Err
   | Some one =>
       if (one <=? 1)%nat then Err else
-      let prefix := firstn one s in
       match bech_dec s with
       | None => Err
-      | Some (_, data, _) =>
+      | Some (prefix, data, m) =>
           match data with
           | [] => Err
           | v :: rest =>
               if 16 <? n8 v then Err else
+              if negb (Bool.eqb (n8 v =? 0) (negb m)) then Err else
               match bcb rest 5 8 false with
               | None => Err
               | Some rg =>
@@ -167,17 +167,16 @@ Definition to_bech32 (prefix : bytes) (v : byte) (program : bytes) : res bytes :
   end.
 
 (* ---------- blech32 ---------- *)
-(* FromBlech32: (prefix as spelled, version, blinding key, program) *)
+(* FromBlech32: (prefix = the lower-case hrp returned by blech32.Decode, version, blinding key, program) *)
 Definition from_blech32 (s : bytes) : res (bytes * byte * bytes * bytes) :=
   match last_index sep s with
   | None => Err
   | Some one =>
       if (one <=? 1)%nat then Err else
-      let prefix := firstn one s in
       match decode s with
       | DErr => Err
       | DPanic => Panic
-      | DOk _ data =>
+      | DOk prefix data =>
           match data with
           | [] => Err
           | v :: rest =>
